@@ -18,7 +18,7 @@ else
   R="$S/wt"
 fi
 for id in "$@"; do
-  VERIF_REPO="$R" VERIF_DIR_OVERRIDE="$S" /verif/check.sh "$id" "${SEED_TIER:-quick}" > "$S/$id.out" 2>&1; rc=$?
+  VERIF_REPO="$R" VERIF_DIR_OVERRIDE="$S" timeout "${SEED_TIMEOUT:-1800}" /verif/check.sh "$id" "${SEED_TIER:-quick}" > "$S/$id.out" 2>&1; rc=$?
   v=$(grep -c '^VIOLATION' "$S/$id.out")
   echo "$id exit=$rc violations=$v $(grep -m2 'signature=' "$S/$id.out" | cut -c1-220 | tr '\n' ' ')"
 done
